@@ -102,6 +102,7 @@ type stream struct {
 	srvCancel  context.CancelFunc
 	onHeaders  func(x *Exchange)
 	flushCount int
+	stalled    bool // the client does not read and the connection's buffers are full
 }
 
 type hdrProbe struct{ st *stream }
@@ -303,10 +304,25 @@ func (st *stream) flushLocked() {
 	}
 }
 
+type writeProbe struct{ st *stream }
+
+//go:norace
+func (p writeProbe) Ready() bool { return !p.st.stalled || p.st.rclosed }
+
+// Stall makes every further Write of the handler block (slow reader, full TCP window) until
+// Stall(false).
+//
+//go:norace
+func (x *Exchange) Stall(on bool) {
+	if x.st != nil {
+		x.st.stalled = on
+	}
+}
+
 //go:norace
 func (w *ResponseWriter) Write(b []byte) (int, error) {
 	st := w.st
-	vsched.Yield("net.write")
+	vsched.Block("net.write", writeProbe{st})
 	if !st.wroteHdr {
 		w.WriteHeader(http.StatusOK)
 	}
